@@ -915,6 +915,12 @@ def run(ctx: Ctx, rep: Report, tier: str) -> None:
     from .c13 import members_follow_group_name
 
     members_follow_group_name(ctx, rep, rid="R03.21")
+    # R03.24 the networks the address cover test reads are the object's own: the memo list of a non-contiguous wildcard is
+    # never handed to a caller itself (C05 R05.14) - a caller that extends the list it got from `ipnets()` would widen what
+    # the entry is later reported to shadow (round-7 seed C03-r7-1)
+    from .c05 import memo_not_handed_out
+
+    memo_not_handed_out(ctx, rep, rid="R03.24")
     members_only_for_groups(ctx, rep)
     # R03.12 premise: the flag/log split of the option text (the flag cover test reads .flags)
     from .c01 import option_partition
